@@ -15,7 +15,7 @@
 (*            A \in {absent, 1} x every subset of trigger columns supplied; RemoveRecord of a     *)
 (*            row; RenameColumn A; ModifyColumn A type                                            *)
 (*                                                                                                *)
-(*            (RenameColumn only in the first bundle of a history: it costs the engine ~50 ms)    *)
+(*            (bundles with schema changes are restricted, see Bundles)                           *)
 (*   bound    at most Depth bundles and at most MaxActs user actions in a history                 *)
 (*                                                                                                *)
 (* With Abstract = TRUE the VIEW identifies states that agree on configuration, schema flags,     *)
@@ -100,12 +100,22 @@ SchemaPairs(cfg, obs) ==
            upK == Act("Upd", row.r, One("A", Other(row.A)) \o One(cfg[1].id, SUPPLY))
        IN {<<s, upA>> : s \in Schema} \cup {<<upA, s>> : s \in Schema} \cup {<<upK, s>> : s \in Schema}
 
-Bundles(cfg, obs, first, room) ==
-  LET all == {<<a>> : a \in Single(cfg, obs)} \cup
-             (IF room < 2 THEN {}
-              ELSE UNION {{<<a1, a2>> : a2 \in Red(cfg, RefAfter(cfg, obs, <<a1>>))} : a1 \in First(cfg, obs)} \cup
-                   SchemaPairs(cfg, obs))
-  IN IF first THEN all ELSE {b \in all : \A n \in 1..Len(b) : b[n].op # "Ren"}
+HasOp(bundle, ops) == \E n \in 1..Len(bundle) : bundle[n].op \in ops
+\* a single action that writes at most one cell
+Simple(bundle)     == Len(bundle) = 1 /\ Len(bundle[1].vals) <= 1 /\ ~IsSchema(bundle[1])
+
+\* prev: the bundle before (<<>> at the start of a history); room: user actions left in the history.
+\* Schema changes are expensive in the engine (RenameColumn ~50-100 ms): a bundle with RenameColumn
+\* only starts a history, one with ModifyColumn starts it or follows a Simple bundle, and a bundle
+\* with a schema change is only followed by single actions of the reduced alphabet.
+Bundles(cfg, obs, prev, room) ==
+  LET singles == {<<a>> : a \in Single(cfg, obs)}
+      pairs   == IF room < 2 THEN {}
+                 ELSE UNION {{<<a1, a2>> : a2 \in Red(cfg, RefAfter(cfg, obs, <<a1>>))} : a1 \in First(cfg, obs)} \cup
+                      SchemaPairs(cfg, obs)
+  IN IF prev = <<>> THEN singles \cup pairs
+     ELSE IF HasOp(prev, {"Ren", "Mod"}) THEN {<<a>> : a \in Red(cfg, obs)}
+     ELSE {b \in singles \cup pairs : ~HasOp(b, {"Ren"}) /\ (HasOp(b, {"Mod"}) => Simple(prev))}
 
 (* ---- the machine ------------------------------------------------------------------------------ *)
 VARIABLES cfg, start, obs, sch, hist, acts, last
@@ -123,7 +133,7 @@ Init == /\ cfg \in Configs
 
 Next ==
   /\ Len(hist) < Depth /\ acts < MaxActs
-  /\ \E bundle \in Bundles(cfg, obs, hist = <<>>, MaxActs - acts) :
+  /\ \E bundle \in Bundles(cfg, obs, IF hist = <<>> THEN <<>> ELSE hist[Len(hist)], MaxActs - acts) :
        /\ obs' = RefAfter(cfg, obs, bundle)
        /\ sch' = <<(sch[1] + Parity(bundle, "Ren")) % 2, (sch[2] + Parity(bundle, "Mod")) % 2>>
        /\ hist' = Append(hist, bundle)
@@ -134,7 +144,8 @@ Next ==
 Spec == Init /\ [][Next]_vars
 
 AbsRow(row) == [r |-> row.r, A |-> row.A, B |-> row.B, e |-> [j \in 1..Len(row.k) |-> row.k[j] = SUPPLY]]
-View == IF Abstract THEN <<cfg, start, sch, [i \in 1..Len(obs) |-> AbsRow(obs[i])], Len(hist), acts>> ELSE vars
+LastKind == IF hist = <<>> THEN 0 ELSE LET b == hist[Len(hist)] IN IF HasOp(b, {"Ren", "Mod"}) THEN 1 ELSE IF Simple(b) THEN 2 ELSE 3
+View == IF Abstract THEN <<cfg, start, sch, [i \in 1..Len(obs) |-> AbsRow(obs[i])], Len(hist), acts, LastKind>> ELSE vars
 
 \* the reference outcome of the last step is admissible: the relation is satisfiable there
 SpecSane == last = <<>> \/ Step(cfg, last[1].before, last[1].bundle, obs)
